@@ -145,6 +145,22 @@ def enumerate_cases(tier, seed):
                         ops.append(["remove_bases", ["D"], [[b] for b in rem]])
                         ops.append(["add_bases", ["D"], [[add]]])
                         yield {"ops": ops, "kind": "enum", "family": "base-churn"}
+    # member churn: D (and a sub DD of D) over an ordered base list; the member of one base is renamed away, renamed
+    # back, deleted: each time D derives the name from the next definer in its order
+    for k in (2, 3):
+        for init in itertools.permutations(indep[:3], k):
+            for b in init:
+                ops = [["new_space", [], x, None, None] for x in indep]
+                for j, x in enumerate(indep):
+                    ops.append(["new_cells", [x], fcell(j)])
+                    ops.append(["set_ref", [x], "r", ["v", 10 + j], None])
+                ops.append(["new_space", [], "D", [[x] for x in init], None])
+                ops.append(["new_space", [], "DD", [["D"]], None])
+                ops.append(["rename_cells", [b], "f", "g"])
+                ops.append(["rename_cells", [b], "g", "f"])
+                ops.append(["del_cells", [b], "f"])
+                ops.append(["del_ref", [b], "r"])
+                yield {"ops": ops, "kind": "enum", "family": "member-churn"}
     # edge churn on 4- and 5-space DAGs built edge by edge (sub spaces last-to-first, so that a space's edge to a
     # far sub exists before its edge to a nearer one): every single base is removed and put back, one at a time,
     # with members defined in the root only / in the root and a middle space
@@ -264,7 +280,9 @@ def gen_member_edit(draw, G):
         own = sorted(s.cells)
         if not own:
             return None
-        n = draw(st.sampled_from(own))
+        # prefer a name that another space defines too (a sub may then derive it from the other definer)
+        rel = [n for n in own if any(n in t.cells for t in G.all_spaces() if t is not s)]
+        n = draw(st.sampled_from(rel or own))
         new = draw(st.sampled_from(names))
         if new == n or G.find_cells(s, new) is not None:
             return None
@@ -366,7 +384,8 @@ def run_case(case):
             if (kind, nm) in comp_before or (kind, nm) in competing(rm):
                 touched = True
         # the structure oracle runs after every step of a history, at the end of a configuration
-        if is_enum and i < len(ops) - 1 and not (case.get("family") == "edge-churn" and op[0] in ("remove_bases",)
+        if is_enum and i < len(ops) - 1 and not (case.get("family") == "member-churn" and op[0] in (
+                "rename_cells", "del_cells", "del_ref")) and not (case.get("family") == "edge-churn" and op[0] in ("remove_bases",)
                                                   or case.get("family") == "edge-churn" and i and ops[i - 1][0] == "remove_bases"):
             continue
         f = check_structure(real, rm)
